@@ -22,14 +22,16 @@ PID = "C02"
 LEVEL = "exploration"
 TECHNIQUE = "exhaustive lattice enumeration of likelihood problems, every column compared with a brute-force sum-product oracle"
 RULE = (
-    "configuration = (model, tree shape, branch-length vector, parameter vector, motif probabilities, scope, bins); "
-    "per (model, shape): [all parameter vectors x all motif-prob choices at the base lengths, global scope] + "
-    "[all length vectors x all motif-prob choices x {global, per-edge} scope x 2 parameter vectors] + "
-    "[all rate-class set-ups x 2 motif-prob choices] + option variants; parameter vectors = full product of the "
-    "lattice for <= 2 parameters, else base vector + every (parameter, lattice value) substitution + all-equal vectors; "
-    "length vectors = the 5 rotations of the length lattice over the edges + all-zero + all-tiny + upper bound; "
-    "each configuration is enumerated once and carries an alignment with every column over the symbol set "
-    "(plus a block of repeated columns); non-trivial = has >= 1 free rate parameter or unequal motif probs, i.e. not plain JC69"
+    "configuration = (model, tree shape, branch-length vector, parameter vector, motif probabilities, scope, bins / options); "
+    "per (model variant, shape) four parts: PARAMS = every parameter vector at the base lengths, global scope, with one motif-prob choice "
+    "rotating with the vector index and the base vector with all choices (thorough, nucleotide / dinucleotide: the full product vectors x choices); "
+    "LENGTHS = every length vector x every non-uniform motif-prob choice x 2 parameter vectors (base, alternating bounds) x {global, per-edge} "
+    "scope (quick codon / protein: every 4th); BINS = every rate-class set-up (gamma n x shape x bprobs, free, explicit rates, ordered "
+    "parameter) x motif-prob choices (quick: second choice only for the first set-up of each mode); OPTIONS = optimise_motif_probs, each expm "
+    "setting, a discrete-psub edge at the first / last edge; parameter vectors = full product of the lattice for <= 2 parameters, else base "
+    "vector + every (parameter, lattice value) substitution + all-equal vectors; length vectors = the 5 rotations of the length lattice over the "
+    "edges + all-zero + all-tiny + upper bound; each configuration is enumerated once and carries an alignment with EVERY column over the "
+    "symbol sets (plus a block of repeated columns); non-trivial = has >= 1 free rate parameter or unequal motif probs, i.e. not plain JC69"
 )
 ASSUMPTIONS = [
     "scipy.linalg.expm and numpy are trusted; the oracle's rate matrices are written from the published model definitions "
@@ -168,8 +170,13 @@ def alignment_for(spec):
     cols = columns_for(spec)
     seqs = {n: "".join(c[i] for c in cols) for i, n in enumerate(spec["tips"])}
     aln = make_aligned_seqs(seqs, moltype="protein" if spec["kind"] == "protein" else "dna")
-    prof = {n: F.indicator(spec["kind"], [c[i] for c in cols]) for i, n in enumerate(spec["tips"])}
-    canon = numpy.array([all(len(F.compatible_states(spec["kind"], s)) == 1 for s in c) for c in cols])
+    prof, single = {}, {}
+    for i, n in enumerate(spec["tips"]):
+        syms = sorted(set(spec["symbols"][i]))
+        pos = {s: k for k, s in enumerate(syms)}
+        prof[n] = (F.indicator(spec["kind"], syms), numpy.array([pos[c[i]] for c in cols]))
+        single[i] = {s: len(F.compatible_states(spec["kind"], s)) == 1 for s in syms}
+    canon = numpy.array([all(single[i][s] for i, s in enumerate(c)) for c in cols])
     nfirst = math.prod(len(s) for s in spec["symbols"])
     first = numpy.zeros(len(cols), bool)
     first[:nfirst] = True
@@ -414,7 +421,7 @@ def check_config(spec, acc, report=True):
         col = cols[i]
         degenerate = any(len(F.compatible_states(kind, s)) > 1 for s in col)
         fail(f"column likelihood differs from the sum-product [{kind}; {shape_class(tree)}; "
-             f"{'degenerate symbol' if degenerate else 'canonical column'}; {bins_class(spec)}]",
+             f"{'degenerate symbol' if degenerate else 'canonical column'}; {'bins' if spec.get('bins') else 'no bins'}]",
              {"column": col, "got": float(L[i]), "want": float(want[i]), "n_bad": int((err > 0).sum())})
     # layer 4: lnL = sum over ALL alignment columns (repeats included) of log(column likelihood)
     if L.min() > 0:
